@@ -188,3 +188,69 @@ REG.loop('BatchProcessing.run', 1, inv=_bp_loop1_inv,
          modifies_locals=['task', 'm', 'tduration', 'pred', 'count', 'p'],
          modifies=['allocations', 'temporary_resources', 'removed', 'added'], props=['C03', 'C09', 'C01'])
 REG.loop('BatchProcessing.run', 2, inv=_count_inv, modifies_locals=['p', 'count'], props=['C03'])
+
+
+# ================================================================================================ QueueProcessing.run
+QPW = alg_world('QueueProcessing')
+COMMON_PARAMS = {'cluster': 'root:cluster', 'clock': 'num', 'workflow_plan': 'WorkflowPlan',
+                 'existing_schedule': 'dict:Task->ref:Machine', 'task_pool': 'set:Task'}
+
+
+def _common_req(c):
+    return [('pool-tasks-are-objects', Q([('t', I)], lambda t: z3.Implies(c.o.task_pool.count(t) > 0, t > 0))),
+            ('assume:graph-nodes-are-task-objects', Q([('a', I), ('b', I)], lambda a, b: z3.Implies(
+                EDGE(c.o.workflow_plan.graph.t, a, b), z3.And(a > 0, b > 0))))]
+
+
+REG.contract('QueueProcessing.run', world=QPW, params=COMMON_PARAMS, requires=_common_req, ensures=_bp_ens,
+             result='tuple:dict:Task->ref:Machine,enum:WorkflowStatus,set:Task',
+             modifies=BP_MOD, props=['C03', 'C01', 'C04'])
+REG.loop('QueueProcessing.run', 0, inv=lambda c: [('pool-tasks-are-objects', Q([('t', I)], lambda t: z3.Implies(c.n.task_pool.count(t) > 0, t > 0)))],
+         modifies_locals=['task'], modifies=['task_pool'], props=['C03'])
+REG.loop('QueueProcessing.run', 1, inv=_bp_loop1_inv,
+         modifies_locals=['task', 'm', 'tduration', 'pred', 'count', 'p'],
+         modifies=['allocations', 'temporary_resources', 'removed', 'added'], props=['C03', 'C01'])
+REG.loop('QueueProcessing.run', 2, inv=_count_inv, modifies_locals=['p', 'count'], props=['C03'])
+
+
+# ================================================================================================ DynamicSchedulingFromPlan.run (C17)
+DPW = alg_world('DynamicSchedulingFromPlan')
+
+
+def planned_machine(c, sv, t):
+    """the machine registered under the task's planned machine id"""
+    mid = z3.Select(sv.heap('Task', 'allocated_machine_id'), t)
+    return z3.Select(sv.cluster.machine_ids.vals, mid)
+
+
+def _dp_loop1_inv(c):
+    n, o = c.n, c.x['pre']
+    A, E = n['allocations'], n['existing_schedule']
+    new = lambda t: z3.And(z3.Select(A.keys, t), z3.Not(z3.Select(E.keys, t)))
+    out = _bp_loop1_inv(c)
+    out.append(('C17-every-new-allocation-is-on-the-planned-machine', Q([('t', I)], lambda t: z3.Implies(
+        new(t), z3.Select(A.vals, t) == planned_machine(c, o, t)))))
+    return out
+
+
+def _dp_ens(c):
+    o = c.o
+    A, E = c.result[0], o.existing_schedule
+    new = lambda t: z3.And(z3.Select(A.keys, t), z3.Not(z3.Select(E.keys, t)))
+    return _bp_ens(c) + [('C17-every-new-allocation-is-on-the-planned-machine', Q([('t', I)], lambda t: z3.Implies(
+        new(t), z3.Select(A.vals, t) == planned_machine(c, o, t))))]
+
+
+REG.contract('DynamicSchedulingFromPlan.run', world=DPW, params=COMMON_PARAMS,
+             requires=lambda c: _common_req(c) + [('assume:registered-machines-are-objects', Q([('k', I)], lambda k: z3.Implies(
+                 z3.Select(c.o.cluster.machine_ids.keys, k), z3.Select(c.o.cluster.machine_ids.vals, k) > 0)))],
+             ensures=_dp_ens, result='tuple:dict:Task->ref:Machine,enum:WorkflowStatus,set:Task',
+             raises={'KeyError': dict(when=None, unchanged=False)},
+             modifies=['heap:WorkflowPlan.status', 'arg:task_pool', 'self.accurate', 'self.alternate'], props=['C17', 'C03', 'C01', 'C04'])
+REG.loop('DynamicSchedulingFromPlan.run', 0, inv=lambda c: [('pool-tasks-are-objects', Q([('t', I)], lambda t: z3.Implies(c.n.task_pool.count(t) > 0, t > 0)))],
+         modifies_locals=['task'], modifies=['task_pool'], props=['C03'])
+REG.loop('DynamicSchedulingFromPlan.run', 1, inv=_dp_loop1_inv,
+         modifies_locals=['task', 'machine', 'pred', 'count', 'p'],
+         modifies=['allocations', 'temporary_resources', 'removed', 'added', 'self.accurate', 'heap:WorkflowPlan.status'],
+         props=['C17', 'C03', 'C01'])
+REG.loop('DynamicSchedulingFromPlan.run', 2, inv=_count_inv, modifies_locals=['p', 'count'], props=['C03'])
